@@ -17,12 +17,27 @@ REAL_KINDS = ["emb", "cat_probs", "cat_logits", "cat_softmax", "gau", "poly"]
 
 def one_case(rep, cs, seed, i):
     rng = rng_for(seed, PID, i)
-    mode = rng.choice(["complex", "complex", "real", "product", "product"])
+    mode = rng.choice(["complex", "complex", "real", "product", "product", "complex-product"])
     monotone = False
     if mode == "complex":
         o = gen.random_opts(rng, kinds=["emb", "poly"], cplx=True)
         sc, g = gen.gen_circuit(rng, **o)
         base = [sc]
+    elif mode == "complex-product":   # c * conj(c) with complex parameters, Kronecker products included
+        o = gen.random_opts(rng, kinds=["emb", "poly"], cplx=True, regular=True, sd=True, nout=1)
+        o["nvars"] = rng.choice([1, 2, 2, 3])
+        o["K"] = rng.choice([1, 2])
+        o["max_alt"] = 2
+        if o["prod"] == "any":
+            o["prod"] = rng.choice(["had", "kron"])
+        s1, g = gen.gen_circuit(rng, **o)
+        try:
+            sc = SF.multiply(s1, SF.conjugate(s1))
+        except Exception as e:
+            rep.count("product-refused:" + type(e).__name__)
+            rep.case({"i": i, "mode": mode}, False)
+            return
+        base = [s1]
     elif mode == "real":
         monotone = rng.random() < 0.5
         o = gen.random_opts(rng, kinds=REAL_KINDS, monotone=monotone)
@@ -46,7 +61,7 @@ def one_case(rep, cs, seed, i):
             rep.case({"i": i, "mode": mode}, False)
             return
         base = [s1, s2]
-    sem = "complex-lse-sum" if mode == "complex" else pick_semiring(rng, monotone)
+    sem = "complex-lse-sum" if mode in ("complex", "complex-product") else pick_semiring(rng, monotone)
     fold, opt = rng.choice(evalc.FLAGS)
     desc = {"i": i, "seed": seed, "mode": mode, "sem": sem, "fold": fold, "opt": opt, **g.desc}
     rep.count("mode:" + mode)
@@ -69,7 +84,7 @@ def one_case(rep, cs, seed, i):
             sig = f"{nm}-wrong-value" if "exception" not in detail else f"{nm}-compile-exception:" + detail["exception"].split("(")[0]
             rep.violation(sig, "compiled conjugate(c) differs from the complex conjugate of compiled c", {"case": desc, "inputs": ys, **detail})
     # same integral (real circuits, integrable inputs)
-    if mode != "complex" and scope and all(k in ("emb", "cat_probs", "cat_logits", "cat_softmax", "gau") for k in g.desc["kinds"]):
+    if mode not in ("complex", "complex-product") and scope and all(k in ("emb", "cat_probs", "cat_logits", "cat_softmax", "gau") for k in g.desc["kinds"]):
         try:
             ctx = evalc.make_ctx(sem, fold, opt)
             za = evalc.evaluate(ctx.compile(SF.integrate(sc)), SF.integrate(sc), [{}], sem)
